@@ -8,9 +8,13 @@
 
     Partial by nature: the clock, [select] and the kernel's tty queue are the model's
     (arrival times are data; a burst is in the queue atomically at its arrival time);
-    real scheduling jitter is outside.  The model has the two repairs of
-    /verif/pending_fixes/C12_*.diff (per-component colour scale; the kitty support query
-    stops at the "c" that ends the DA1 reply). *)
+    real scheduling jitter is outside.  The model is the code after the two repairs this
+    property led to (/repo 54d19bd: per-component colour scale, F7; /repo ea400a1: the kitty
+    support query stops at the "c" that ends the DA1 reply, F10).
+
+    Structure: the read loop (any schedule); nothing left unread (conditional lemmas); END TO
+    END for the terminal of any well-formed profile — the five [*_reports_profile] theorems,
+    which compose the former with the parser and decision-rule theorems below. *)
 From Coq Require Import Ascii String List ZArith Bool Arith.
 Import ListNotations.
 From TI Require Import model.Query model.QuerySpec proofs.QueryReadProofs proofs.QueryParseProofs
@@ -150,6 +154,63 @@ Theorem C12_name_version_reports_profile :
           + c * (Z.of_nat (length (stream (profile_terminal p delays XTV_request))) + 4).
 Proof. exact name_version_reports_profile. Qed.
 Print Assumptions C12_name_version_reports_profile.
+
+(** get_cell_size() on a cache miss in a window of at least 1x1 cells: the ioctl's pixel size
+    when it has no zero (then no query at all), else the replied cell size (XTWINOPS reports
+    height;width), else the replied text-area size divided by the window size in cells
+    (swapped first under the workaround; height doubled on Termux); [CsNone] when a dimension
+    comes out as 0 or nothing was replied; nothing left unread; at most one timeout. *)
+Theorem C12_cell_size_reports_profile :
+  forall cost c, (forall i, 0 <= cost i <= c) ->
+    forall cfg, enabled cfg = true -> 0 < qtimeout cfg ->
+    forall p, wf_profile p = true ->
+    forall delays c0 st D,
+      cache_hit cfg c0 = false -> 0 < ws_cols cfg -> 0 < ws_rows cfg ->
+      pend st = [] -> timely c cfg (profile_terminal p delays) CELL_request D ->
+      exists c1 st',
+        get_cell_size cost cfg (profile_terminal p delays) c0 st = (exp_cell cfg p, c1, st') /\
+        pend st' = [] /\ now st <= now st' <= now st + qtimeout cfg + 2 * c.
+Proof. exact cell_size_reports_profile. Qed.
+Print Assumptions C12_cell_size_reports_profile.
+
+(** KittyImage.is_supported() from a fresh state: the documented rule on what the terminal
+    said — whatever the error message of a refusing terminal contains (F10) —; nothing left
+    unread; at most one timeout per query. *)
+Theorem C12_kitty_reports_profile :
+  forall cost c, (forall i, 0 <= cost i <= c) ->
+    forall cfg, enabled cfg = true -> 0 < qtimeout cfg ->
+    forall p, wf_profile p = true ->
+    forall delays st D1 D2,
+      pend st = [] ->
+      timely c cfg (profile_terminal p delays) XTV_request D1 ->
+      timely c cfg (profile_terminal p delays) KITTY_request D2 ->
+      exists st',
+        kitty_is_supported cost cfg (profile_terminal p delays) (st, None)
+        = (exp_kitty cfg p, (st', Some (exp_name_version cfg p))) /\
+        pend st' = [] /\
+        now st <= now st' <= now st + 2 * qtimeout cfg
+          + c * (Z.of_nat (length (stream (profile_terminal p delays XTV_request))) + 6).
+Proof. exact kitty_reports_profile. Qed.
+Print Assumptions C12_kitty_reports_profile.
+
+(** auto_image_class() from a fresh state: kitty, then iterm2, then block, by the documented
+    rules on what the terminal said (an unknown version of konsole counts as < 22.04.0). *)
+Theorem C12_auto_reports_profile :
+  forall cost c, (forall i, 0 <= cost i <= c) ->
+    forall cfg, enabled cfg = true -> 0 < qtimeout cfg ->
+    forall p, wf_profile p = true ->
+    forall delays st D1 D2,
+      pend st = [] ->
+      timely c cfg (profile_terminal p delays) XTV_request D1 ->
+      timely c cfg (profile_terminal p delays) KITTY_request D2 ->
+      exists st',
+        auto_image_class cost cfg (profile_terminal p delays) (st, None)
+        = (Some (exp_auto cfg p), (st', Some (exp_name_version cfg p))) /\
+        pend st' = [] /\
+        now st <= now st' <= now st + 2 * qtimeout cfg
+          + c * (Z.of_nat (length (stream (profile_terminal p delays XTV_request))) + 6).
+Proof. exact auto_reports_profile. Qed.
+Print Assumptions C12_auto_reports_profile.
 
 (** *** colours *)
 
